@@ -395,6 +395,7 @@ func run(b *harness.B) {
 		b.MaxOf("excluded_types", int64(len(wirereg.Excluded)))
 		checkGolden(b)
 		checkHighLeafIndex(b, b.SubRng("highleaf"))
+		checkDirected(b, b.SubRng("directed"))
 	}
 	// reference hashes (all batches, cheap)
 	if p := safely(func() { checkHashes(b, b.SubRng("hashes"), b.Pick(30, 2000)) }); p != "" {
